@@ -291,6 +291,10 @@ func init() {
 		it.ps.eventsOff = termArg(args[0]).False()
 		return nil
 	}
+	intrinsics["github.com/go-ap/activitypub.vpGobHostile"] = func(it *Interp, fr *frame, args []Value) Value {
+		it.gobHostile = termArg(args[0]).True()
+		return nil
+	}
 	intrinsics["github.com/go-ap/activitypub.vpSymbolic"] = func(it *Interp, fr *frame, args []Value) Value {
 		return tTrue
 	}
@@ -473,6 +477,20 @@ func init() {
 		res := it.call(fr, FuncV{fn: fn}, []Value{x.v})
 		return Tuple{res, Iface{}}
 	}
+
+	// ---- time.Local is UTC (native replays run with TZ=UTC); no zone database access
+	intrinsics["time.initLocal"] = func(it *Interp, fr *frame, args []Value) Value {
+		pkg := it.p.prog.ImportedPackage("time")
+		if pkg == nil || pkg.Var("localLoc") == nil {
+			it.abort("unmodelled", "time.localLoc not found")
+		}
+		p := it.global(pkg.Var("localLoc"))
+		sv := (*p.cell).(StructV)
+		np := Ptr{cell: &sv.f[0], obj: p.obj}
+		it.storeCell(fr, np, np.cell, mkStr("UTC"))
+		return nil
+	}
+	intrinsics["time.runtimeNano"] = func(it *Interp, fr *frame, args []Value) Value { return mkConst(64, 1) }
 
 	// ---- fastjson header puns
 	intrinsics["github.com/valyala/fastjson.b2s"] = func(it *Interp, fr *frame, args []Value) Value {
